@@ -1,6 +1,7 @@
 package props
 
 import (
+	"encoding/json"
 	"fmt"
 	"strings"
 
@@ -150,6 +151,7 @@ func lifeConcScenarios(prop string) []*Scenario {
 			mk("group+direct", nil, []Op{{Kind: "group", Scope: "s1", T: "D2", Group: "h"}}, []Op{{Kind: "get", Scope: "s1", T: "D4"}}),
 			mk("first-output+second-output", nil, []Op{{Kind: "get", Scope: "s1", T: "D5"}}, []Op{{Kind: "get", Scope: "s1", T: "P5"}}),
 			mk("direct+direct-first-fails", map[string]string{"9:1": "err"}, []Op{{Kind: "get", Scope: "s1", T: "D4"}}, []Op{{Kind: "get", Scope: "s1", T: "D4"}}),
+			mk("three-resolvers-first-fails", map[string]string{"9:1": "err"}, []Op{{Kind: "get", Scope: "s1", T: "D4"}}, []Op{{Kind: "get", Scope: "s1", T: "D4"}}, []Op{{Kind: "get", Scope: "s1", T: "D4"}}),
 			mk("parent+child", nil, []Op{{Kind: "get", Scope: "s1", T: "D4"}}, []Op{{Kind: "get", Scope: "s2", T: "D4"}}),
 			mk("three-resolvers", nil, []Op{{Kind: "get", Scope: "s1", T: "D4"}}, []Op{{Kind: "get", Scope: "s1", T: "D4"}}, []Op{{Kind: "get", Scope: "s1", T: "P3"}}),
 		}
@@ -194,12 +196,26 @@ func registerLife(prop, title string) {
 			for _, sc := range lifeConcScenarios(prop) {
 				sc := sc
 				b := pb
-				if len(sc.Threads) > 2 {
+				if len(sc.Threads) > 2 && !strings.Contains(sc.Name, "first-fails") {
 					b = pb - 1
 				}
-				jobs = append(jobs, mc.Job{Name: sc.Name, Weight: 50, Run: func(r *mc.Report) {
-					exploreScenario(r, sc, mc.Bounds{Preempt: b}, func(e *Env, s *vsched.Sched) []Finding { return filterClauses(prop, lifeOracle(e, m)) })
-				}})
+				ns := 1
+				if strings.Contains(sc.Name, "first-fails") && len(sc.Threads) > 2 {
+					ns = 8
+				}
+				for sh := 0; sh < ns; sh++ {
+					sh := sh
+					name := sc.Name
+					if ns > 1 {
+						name = fmt.Sprintf("%s#%d", sc.Name, sh)
+					}
+					jobs = append(jobs, mc.Job{Name: name, Weight: 50, Run: func(r *mc.Report) {
+						exploreScenario(r, sc, mc.Bounds{Preempt: b, Shard: sh, NShards: ns}, func(e *Env, s *vsched.Sched) []Finding { return filterClauses(prop, lifeOracle(e, m)) })
+					}})
+				}
+			}
+			if prop == "C01" {
+				jobs = append(jobs, mc.Job{Name: "C01-removed-outputs", Run: c01RemovedOutputs})
 			}
 			for _, np := range []int{1, 2} {
 				np := np
@@ -237,6 +253,109 @@ func lifeForms(r *mc.Report, prop string, nprod int) {
 			r.Violate(f.F, f.Detail+fmt.Sprintf("\n  producers %v, consumer shape %s, lifetimes %s/%s", c.Prod, c.Shape, c.ProdLife, c.ConsLife), c)
 		}
 	})
+}
+
+// c01RemovedOutputs: a singleton constructor with three outputs (multiple
+// returns / result object) of which every subset is removed before Build: the
+// constructor still runs exactly once and the remaining identities are its outputs.
+func c01RemovedOutputs(r *mc.Report) {
+	type rmCase struct {
+		Form   string `json:"form"`
+		Remove int    `json:"remove_mask"`
+		Dep    bool   `json:"consumer"`
+	}
+	run := func(c rmCase) {
+		r0 := kit.Reg{ID: 0, Life: "singleton", Outs: []kit.Out{{T: "P0"}, {T: "P1"}, {T: "P2"}}}
+		keys := []string{"", "", ""}
+		if c.Form == "resobj" {
+			r0.ResObj = true
+			r0.Outs[2].Key = "k"
+			keys[2] = "k"
+		}
+		spec := kit.Spec{Regs: []kit.Reg{r0}}
+		var e *Env
+		var m *Model
+		s := seqOnce(func() {
+			e = NewEnv(&spec)
+			e.Coll = godiNewCollection()
+			m = &Model{Spec: &spec, Services: map[Ident]RegOut{}, Groups: map[Ident][]RegOut{}, regs: map[int]*kit.Reg{}}
+			e.AddErrs = append(e.AddErrs, e.W.Add(e.Coll, &spec.Regs[0]))
+			m.AddErr = append(m.AddErr, m.Add(&spec.Regs[0]))
+			for i, t := range []string{"P0", "P1", "P2"} {
+				if c.Remove&(1<<i) == 0 {
+					continue
+				}
+				if keys[i] == "" {
+					e.Coll.Remove(kit.TypeOf(t))
+				} else {
+					e.Coll.RemoveKeyed(kit.TypeOf(t), keys[i])
+				}
+				m.Remove(t, keys[i])
+			}
+			if c.Dep {
+				// a second singleton consuming whatever remains of the first two outputs
+				cons := kit.Reg{ID: 1, Life: "singleton", Outs: []kit.Out{{T: "D0"}}}
+				for i, t := range []string{"P0", "P1"} {
+					if c.Remove&(1<<i) == 0 {
+						cons.Deps = append(cons.Deps, kit.Dep{T: t})
+					}
+				}
+				spec.Regs = append(spec.Regs, cons)
+				e.AddErrs = append(e.AddErrs, e.W.Add(e.Coll, &spec.Regs[1]))
+				m.AddErr = append(m.AddErr, m.Add(&spec.Regs[1]))
+			}
+			e.curScope[0] = "#build"
+			n0 := len(e.W.Calls)
+			p, did := kit.Try(func() { e.Prov, e.BuildErr = e.Coll.Build() })
+			if did {
+				e.BuildPanic = p
+			}
+			for _, cl := range e.W.Calls[n0:] {
+				e.CallScope[cl] = "#build"
+			}
+			if e.Prov != nil {
+				e.Do(Op{Kind: "scope", Bind: "s1"})
+				probeUniverse(e, "s1", []string{"P0", "P1", "P2", "D0"}, []string{"", "k"}, nil)
+				probeUniverse(e, "", []string{"P0", "P1", "P2", "D0"}, []string{"", "k"}, nil)
+				e.Do(Op{Kind: "close", Scope: ""})
+			}
+		})
+		r.Executions++
+		r.Validated++
+		r.States++
+		r.Transitions += int64(len(e.Results) + 2)
+		r.Outcome(fmt.Sprintf("removed-outputs %s mask=%d consumer=%v | %s", c.Form, c.Remove, c.Dep, e.Summary()))
+		var fs []Finding
+		if c.Remove == 7 {
+			// nothing of the registration is left: its constructor must not run at all
+			if n := len(e.W.CallsOf(0)); n != 0 {
+				fs = append(fs, Finding{feat("clause", "removed-ctor-ran"), fmt.Sprintf("all outputs removed, yet the constructor ran %d times", n)})
+			}
+		} else if e.Prov == nil {
+			fs = append(fs, Finding{feat("clause", "build-failed", "form", c.Form), fmt.Sprintf("Build failed after removing outputs %03b: %v %v", c.Remove, e.BuildErr, e.BuildPanic)})
+		} else {
+			fs = append(fs, filterClauses("C01", lifeOracle(e, m))...)
+		}
+		fs = append(fs, genericFindings(nil, s)...)
+		for _, f := range fs {
+			f.F["removed"] = fmt.Sprint(c.Remove)
+			r.Violate(f.F, f.Detail+fmt.Sprintf("\n  three-output singleton (%s), removed outputs mask %03b, consumer=%v", c.Form, c.Remove, c.Dep), c)
+		}
+	}
+	if r.Only != nil {
+		var c rmCase
+		if json.Unmarshal(r.Only, &c) == nil && c.Form != "" {
+			run(c)
+		}
+		return
+	}
+	for _, form := range []string{"multi", "resobj"} {
+		for mask := 0; mask < 8; mask++ {
+			for _, dep := range []bool{false, true} {
+				run(rmCase{Form: form, Remove: mask, Dep: dep})
+			}
+		}
+	}
 }
 
 func init() {
